@@ -56,6 +56,9 @@ var c13Fixed = []struct {
 	// scope of the type statement outwards, like a bare name — RFC 6020 section 5.5)
 	{"local typedef named with the module's own prefix", `typedef t { type uint8 { range "1..10"; } default 7; } leaf l { type m:t; }`, true},
 	{"chain of local typedefs named with the module's own prefix", `typedef t0 { type string { length "1..4"; } } typedef t1 { type m:t0 { pattern "[a-z]*"; } } leaf l { type m:t1; }`, true},
+	{"leaf default outside every member of a union typedef that has a default of its own", `typedef level { type union { type uint8 { range "0..50"; } type enumeration { enum auto; } } default "auto"; } leaf l { type level; default "75"; }`, false},
+	{"leaf default inside a member of a union typedef", `typedef level { type union { type uint8 { range "0..50"; } type enumeration { enum auto; } } default "auto"; } leaf l { type level; default "40"; }`, true},
+	{"default of a typedef derived from a union typedef, outside every member", `typedef level { type union { type uint8 { range "0..50"; } type enumeration { enum auto; } } } typedef inner { type level; default "off"; } leaf l { type inner; }`, false},
 	{"fraction-digits on a typedef derived from a decimal64 typedef", `typedef d { type decimal64 { fraction-digits 2; } } typedef d2 { type d { fraction-digits 1; } } leaf l { type d2; }`, false},
 }
 
